@@ -77,13 +77,56 @@ Section Bytes.
 
   (* ------------------------------------------------------------ *)
   (* the crash points of saveConfig: at every one of them the lease file holds the old content or the new one *)
+  Lemma overwrite_nil w : overwrite w [] = w.
+  Proof. unfold overwrite. destruct (List.length w); simpl; apply app_nil_r. Qed.
+
+  (* THE DIRECTORY IS PART OF THE INITIAL STATE: whatever the temporary file holds before the save (absent, shorter,
+     equal, LONGER than the new content, arbitrary bytes, a complete older save), after a completed save the lease
+     file's bytes are exactly the new serialisation and the temporary file is gone.  This needs the open to truncate. *)
+  Lemma save_ignores_stale_tmp content fs :
+    f_lease (save_fs content fs) = Some content /\ f_tmp (save_fs content fs) = None.
+  Proof.
+    unfold save_fs, save_fs_flags, fs_rename, fs_write_tmp, fs_open_tmp, tmp_content. simpl.
+    rewrite firstn_all, overwrite_nil. auto.
+  Qed.
+
+  (* without O_TRUNC the tail of a longer stale temporary file survives the write and is renamed over the lease file *)
+  Lemma save_without_trunc content fs :
+    f_lease (save_fs_flags false content fs) = Some (content ++ skipn (List.length content) (tmp_content fs)).
+  Proof.
+    unfold save_fs_flags, fs_rename, fs_write_tmp, fs_open_tmp. simpl. rewrite firstn_all. reflexivity.
+  Qed.
+
+  Lemma restart_after_save_any_directory c cap content fs :
+    new_bytes c cap (f_lease (save_fs content fs)) = new_bytes c cap (Some content).
+  Proof. rewrite (proj1 (save_ignores_stale_tmp content fs)). reflexivity. Qed.
+
+  Lemma save_without_trunc_refuted :
+    exists content fs, f_lease (save_fs_flags false content fs) <> Some content.
+  Proof.
+    exists [1; 2], {| f_lease := Some [7]; f_tmp := Some [9; 9; 9; 9] |}. vm_compute. discriminate.
+  Qed.
+
   Lemma crash_lease_old_or_new content fs fs' :
     In fs' (crash_states content fs) -> f_lease fs' = f_lease fs \/ f_lease fs' = Some content.
   Proof.
     unfold crash_states. intros [<-|[<-|H]]; auto.
     apply in_app_or in H. destruct H as [H|[<-|[]]].
     - apply in_map_iff in H. destruct H as (n & <- & _). left. reflexivity.
-    - right. unfold save_fs, fs_rename, fs_write_tmp. simpl. rewrite firstn_all. reflexivity.
+    - right. apply save_ignores_stale_tmp.
+  Qed.
+
+  (* at every crash point the temporary file holds a prefix of the new content — never bytes of an older file *)
+  Lemma crash_tmp_prefix content fs fs' :
+    In fs' (crash_states content fs) ->
+    fs' = fs \/ f_tmp fs' = None \/ exists n, f_tmp fs' = Some (firstn n content).
+  Proof.
+    unfold crash_states. intros [<-|[<-|H]]; auto.
+    - right. right. exists 0%nat. reflexivity.
+    - apply in_app_or in H. destruct H as [H|[<-|[]]].
+      + apply in_map_iff in H. destruct H as (n & <- & _). right. right. exists n.
+        unfold fs_write_tmp, fs_open_tmp, tmp_content. simpl. rewrite overwrite_nil. reflexivity.
+      + right. left. apply save_ignores_stale_tmp.
   Qed.
 
   (* hence a restart after a crash at any point of a save (any prefix of the written bytes included) constructs
